@@ -244,6 +244,25 @@ class Tracer:
             base = self.place_sources(l, depth, seen)
             out = set()
             for b in base:
+                if b[0] == "agg" and depth < 40:
+                    # a field of a value that turned out to be one particular aggregate: that aggregate's operand
+                    try:
+                        r_ = self.body.blocks[b[1]]["s"][b[2]]["r"]
+                    except (IndexError, KeyError, TypeError):
+                        r_ = None
+                    fi = next((k_ for k_, e in enumerate(proj) if isinstance(e, dict) and "f" in e), None)
+                    if r_ is not None and fi is not None and r_.get("agg") in ("tuple", "adt", "closure") and all(isinstance(e, dict) and "dc" in e for e in proj[:fi]) \
+                            and proj[fi]["f"] < len(r_["ops"]) and (not proj[:fi] or r_.get("agg") != "adt" or r_.get("vi") == proj[fi - 1]["dc"]):
+                        rest = proj[fi + 1:]
+                        o_ = r_["ops"][proj[fi]["f"]]
+                        po_ = op_place(o_)
+                        if rest and po_ is not None:
+                            out |= self.place_sources({"l": place_local(po_), "p": list(place_proj(po_)) + rest}, depth + 1, seen)
+                        elif rest:
+                            out |= {("field", x, _freeze(rest)) for x in self.sources(o_, depth + 1, seen)}
+                        else:
+                            out |= self.sources(o_, depth + 1, seen)
+                        continue
                 out.add(("field", b, _freeze(proj)))
             return out
         if l in seen or depth > 40:
